@@ -30,7 +30,11 @@ impl Parser {
 
         if !self.parsed_numbers.is_empty() && self.parsed_numbers[0] == 4 {
             for a in OSC_PALETTE.captures_iter(&self.parse_string) {
-                let color = a.get(1).unwrap().as_str().parse::<u32>()?;
+                // the index group is optional in the pattern: `4;;rgb:..` matches without one
+                let Some(index) = a.get(1) else {
+                    continue;
+                };
+                let color = index.as_str().parse::<u32>()?;
                 if color > 255 {
                     log::error!("Invalid color index: {}", color);
                     continue;
